@@ -1,3 +1,5 @@
+#include <limits>
+
 #include "VM/include/program.hpp"
 #include "VM/include/vm.hpp"
 
@@ -112,10 +114,14 @@ bool VM::executeSingle() {
       // i.parameters.add.source << " + " << i.parameters.add.constant <<
       // std::endl;
       WordIndex base = this->stack.back().data_start;
-      this->data[base + i.parameters.add.target] =
-          std::max(this->data[base + i.parameters.add.source] +
-                       i.parameters.add.constant,
-                   0);
+      // compute in 64 bit: the sum may leave the word range; truncate at zero,
+      // saturate at the largest word
+      long long sum = (long long)this->data[base + i.parameters.add.source] +
+                      (long long)i.parameters.add.constant;
+      if (sum < 0) sum = 0;
+      if (sum > std::numeric_limits<Word>::max())
+        sum = std::numeric_limits<Word>::max();
+      this->data[base + i.parameters.add.target] = (Word)sum;
       this->instruction_pointer++;
       break;
     }
